@@ -147,10 +147,80 @@ Hypothesis Htok : token_ok tok = true.
 Hypothesis Hnow : digits_ok now = true.
 Let temp := temp_name cfg fn tok.
 Let backup := backup_name cfg fn now.
+Let tp := thr cfg fn.
+(* a symlinked target points somewhere else than the paths the save uses *)
+Hypothesis Hq : forall q, c_link cfg = Some q -> q <> fn /\ q <> temp /\ q <> backup.
 
 Let Htf : temp <> fn := temp_neq_target cfg fn tok Htok.
 Let Hbf : backup <> fn := backup_neq_target cfg fn now Hnow.
 Let Htb : temp <> backup := temp_neq_backup cfg fn tok now Htok Hnow.
+
+Lemma Htt : temp <> tp.
+Proof.
+  unfold tp, thr. destruct (c_link cfg) as [q|] eqn:E; [|exact Htf].
+  destruct (Hq q eq_refl) as [_ [H _]]. congruence.
+Qed.
+Lemma Hbt : backup <> tp.
+Proof.
+  unfold tp, thr. destruct (c_link cfg) as [q|] eqn:E; [|exact Hbf].
+  destruct (Hq q eq_refl) as [_ [_ H]]. congruence.
+Qed.
+
+(* the link (if the target is one) is still there: no regular file at fn *)
+Definition alive (f : fs) : Prop :=
+  match c_link cfg with Some _ => f fn = None | None => True end.
+
+Lemma rd_safe es f : Forall (safe fn) es -> Forall (safe tp) es ->
+  rd cfg fn (apply es f) = rd cfg fn f.
+Proof.
+  intros H1 H2. unfold rd. unfold tp, thr in H2. destruct (c_link cfg).
+  - now rewrite !apply_safe.
+  - now rewrite apply_safe.
+Qed.
+
+Lemma alive_safe es f : Forall (safe fn) es -> alive f -> alive (apply es f).
+Proof.
+  intros H Ha. unfold alive in *. destruct (c_link cfg); [|exact Logic.I].
+  now rewrite apply_safe.
+Qed.
+
+Lemma rd_of_tp f : alive f -> rd cfg fn f = f tp.
+Proof.
+  unfold alive, rd, tp, thr. destruct (c_link cfg); intro H; [now rewrite H|reflexivity].
+Qed.
+
+Lemma tp_neq_fn : c_link cfg <> None -> tp <> fn.
+Proof.
+  intro H. unfold tp, thr. destruct (c_link cfg) as [q|] eqn:E; [|congruence].
+  destruct (Hq q eq_refl) as [H1 _]. exact H1.
+Qed.
+
+(* effects that go through the link do not remove it *)
+Lemma alive_after es f : alive f -> (c_link cfg <> None -> Forall (safe fn) es) -> alive (apply es f).
+Proof.
+  unfold alive. destruct (c_link cfg); [|trivial].
+  intros Ha H. rewrite apply_safe; [exact Ha|apply H; discriminate].
+Qed.
+
+Lemma alive_touch f : alive f -> alive (apply1 f (Touch tp)).
+Proof.
+  intro Ha. change (apply1 f (Touch tp)) with (apply [Touch tp] f).
+  apply alive_after; [exact Ha|]. intro H. constructor; [now apply tp_neq_fn|constructor].
+Qed.
+
+Lemma rd_touch f : alive f ->
+  rd cfg fn (apply1 f (Touch tp))
+  = match rd cfg fn f with Some b => Some b | None => Some [] end.
+Proof.
+  intro Ha. rewrite (rd_of_tp _ (alive_touch f Ha)), (rd_of_tp f Ha).
+  cbn [apply1]. destruct (f tp) eqn:E; [exact E|apply upd_same].
+Qed.
+
+Lemma rd_rename f new : f temp = Some new ->
+  rd cfg fn (apply1 f (Rename temp fn)) = Some new.
+Proof.
+  intro H. unfold rd. cbn [apply1]. rewrite H. destruct (c_link cfg); now rewrite upd_same.
+Qed.
 
 Lemma run_writes ws : forall f rest,
   run_ops cfg fn tok now chunk (St false false) f (map OWrite ws ++ rest) =
@@ -177,10 +247,12 @@ Proof.
   simpl. apply upd_same.
 Qed.
 
-Lemma written_other f0 ws q : temp <> q -> written f0 ws q = f0 q.
+Lemma written_safe p ws : temp <> p -> Forall (safe p) ([Create temp] ++ map (Append temp) ws).
+Proof. intro H. constructor; [exact H|now apply appends_safe]. Qed.
+
+Lemma written_rd f0 ws : rd cfg fn (written f0 ws) = rd cfg fn f0.
 Proof.
-  intro H. unfold written. rewrite apply_safe by now apply appends_safe.
-  simpl. apply upd_other. congruence.
+  unfold written. rewrite <- apply_app. apply rd_safe; apply written_safe; [exact Htf|exact Htt].
 Qed.
 
 Definition save_effects (old : option bytes) (ws : list bytes) : list eff :=
@@ -188,12 +260,12 @@ Definition save_effects (old : option bytes) (ws : list bytes) : list eff :=
   ++ close_tail cfg fn tok now chunk old (concat ws).
 
 Lemma effects_save f0 ws :
-  effects cfg fn tok now chunk f0 (save_ops ws) = save_effects (f0 fn) ws.
+  effects cfg fn tok now chunk f0 (save_ops ws) = save_effects (rd cfg fn f0) ws.
 Proof.
   unfold effects, session, save_ops. fold temp. rewrite run_writes.
   fold (written f0 ws).
   cbn [run_ops step a_rolled a_closed]. unfold close_effs. fold temp.
-  rewrite written_temp. rewrite written_other by exact Htf.
+  rewrite written_temp. rewrite written_rd.
   cbn [fst]. unfold save_effects. fold temp.
   rewrite app_nil_r. cbn [app]. f_equal. rewrite <- app_assoc. reflexivity.
 Qed.
@@ -215,124 +287,130 @@ Definition head_effects (old : option bytes) (ws : list bytes) : list eff :=
   (Create temp :: map (Append temp) ws ++ [CloseF temp])
   ++ backup_effs cfg fn now chunk old (concat ws).
 
-Lemma head_safe_target old ws : Forall (safe fn) (head_effects old ws).
+Lemma nosave_safe p ws : temp <> p ->
+  Forall (safe p) (Create temp :: map (Append temp) ws ++ [CloseF temp]).
 Proof.
-  unfold head_effects. apply Forall_app. split.
-  - constructor; [exact Htf|]. apply Forall_app. split; [now apply appends_safe|].
-    constructor; [exact Logic.I|constructor].
-  - unfold backup_effs. fold backup. destruct old as [o|]; [|constructor].
-    destruct (backup_wanted cfg (Some o) (concat ws)); [|constructor].
-    now apply copy_safe.
+  intro H. constructor; [exact H|]. apply Forall_app. split; [now apply appends_safe|].
+  constructor; [exact Logic.I|constructor].
 Qed.
 
-Lemma backup_safe_temp old new : Forall (safe temp) (backup_effs cfg fn now chunk old new).
+Lemma backup_safe p old new : backup <> p -> Forall (safe p) (backup_effs cfg fn now chunk old new).
 Proof.
-  unfold backup_effs. fold backup. destruct old as [o|]; [|constructor].
+  intro H. unfold backup_effs. fold backup. destruct old as [o|]; [|constructor].
   destruct (backup_wanted cfg (Some o) new); [|constructor].
-  apply copy_safe. congruence.
+  now apply copy_safe.
+Qed.
+
+Lemma head_safe p old ws : temp <> p -> backup <> p -> Forall (safe p) (head_effects old ws).
+Proof.
+  intros H1 H2. unfold head_effects. apply Forall_app. split;
+    [now apply nosave_safe|now apply backup_safe].
 Qed.
 
 Lemma head_temp f0 old ws : apply (head_effects old ws) f0 temp = Some (concat ws).
 Proof.
-  unfold head_effects. rewrite apply_app. rewrite apply_safe by apply backup_safe_temp.
+  unfold head_effects. rewrite apply_app. rewrite apply_safe by (apply backup_safe; congruence).
   change (Create temp :: map (Append temp) ws ++ [CloseF temp])
     with ([Create temp] ++ map (Append temp) ws ++ [CloseF temp]).
   rewrite !apply_app. fold (written f0 ws). simpl. apply written_temp.
 Qed.
 
-Lemma head_target f0 old ws : apply (head_effects old ws) f0 fn = f0 fn.
-Proof. apply apply_safe. apply head_safe_target. Qed.
+Lemma head_rd f0 old ws : rd cfg fn (apply (head_effects old ws) f0) = rd cfg fn f0.
+Proof. apply rd_safe; apply head_safe; auto using Htt, Hbt. Qed.
+
+Lemma head_alive f0 old ws : alive f0 -> alive (apply (head_effects old ws) f0).
+Proof. apply alive_safe. now apply head_safe. Qed.
 
 Lemma save_effects_split old ws :
   save_effects old ws =
   if overwrite_allowed cfg old (concat ws)
-  then head_effects old ws ++ Touch fn :: move_effs cfg fn tok chunk (concat ws)
+  then head_effects old ws ++ Touch tp :: move_effs cfg fn tok chunk (concat ws)
   else Create temp :: map (Append temp) ws ++ [CloseF temp].
 Proof.
-  unfold save_effects, close_tail, head_effects.
+  unfold save_effects, close_tail, head_effects. fold tp.
   destruct (overwrite_allowed cfg old (concat ws)).
   - rewrite <- app_assoc. reflexivity.
   - now rewrite app_nil_r.
-Qed.
-
-Lemma nosave_safe_target ws : Forall (safe fn) (Create temp :: map (Append temp) ws ++ [CloseF temp]).
-Proof.
-  constructor; [exact Htf|]. apply Forall_app. split; [now apply appends_safe|].
-  constructor; [exact Logic.I|constructor].
 Qed.
 
 (* --- C17_atomic_same_fs --- *)
 Definition atomic_outcome (old : option bytes) (new : bytes) (t : option bytes) : Prop :=
   t = old \/ t = Some new \/ (old = None /\ t = Some []).
 
-Lemma atomic_same_fs f0 ws k :
-  xdev_eff cfg = false ->
-  atomic_outcome (f0 fn) (concat ws)
-    (apply (firstn k (effects cfg fn tok now chunk f0 (save_ops ws))) f0 fn).
+Lemma touch_temp f new : f temp = Some new -> apply1 f (Touch tp) temp = Some new.
 Proof.
-  intro Hx. rewrite effects_save, save_effects_split.
-  destruct (overwrite_allowed cfg (f0 fn) (concat ws)).
-  2:{ left. apply apply_safe. apply Forall_firstn. apply nosave_safe_target. }
+  intro H. rewrite apply1_safe; [exact H|]. simpl. pose proof Htt. congruence.
+Qed.
+
+Lemma atomic_same_fs f0 ws k :
+  alive f0 -> xdev_eff cfg = false ->
+  atomic_outcome (rd cfg fn f0) (concat ws)
+    (rd cfg fn (apply (firstn k (effects cfg fn tok now chunk f0 (save_ops ws))) f0)).
+Proof.
+  intros Ha Hx. rewrite effects_save, save_effects_split.
+  destruct (overwrite_allowed cfg (rd cfg fn f0) (concat ws)).
+  2:{ left. apply rd_safe; apply Forall_firstn; apply nosave_safe; [exact Htf|exact Htt]. }
   unfold move_effs. rewrite Hx. fold temp.
-  destruct (prefix_split k (head_effects (f0 fn) ws) [Touch fn; Rename temp fn]) as [E|[j E]];
+  destruct (prefix_split k (head_effects (rd cfg fn f0) ws) [Touch tp; Rename temp fn]) as [E|[j E]];
     rewrite E.
-  - left. apply apply_safe. apply Forall_firstn. apply head_safe_target.
+  - left. apply rd_safe; apply Forall_firstn; apply head_safe; auto using Htt, Hbt.
   - rewrite apply_app.
-    pose proof (head_temp f0 (f0 fn) ws) as Ht. pose proof (head_target f0 (f0 fn) ws) as Hf.
-    set (f1 := apply (head_effects (f0 fn) ws) f0) in *.
+    pose proof (head_temp f0 (rd cfg fn f0) ws) as Ht.
+    pose proof (head_rd f0 (rd cfg fn f0) ws) as Hr.
+    pose proof (head_alive f0 (rd cfg fn f0) ws Ha) as Ha1.
+    set (f1 := apply (head_effects (rd cfg fn f0) ws) f0) in *.
     destruct j as [|[|j]]; cbn [firstn].
-    + left. exact Hf.
-    + unfold apply. cbn [fold_left apply1]. rewrite Hf.
-      destruct (f0 fn) eqn:Eo.
-      * left. exact Hf.
-      * right. right. split; [reflexivity|apply upd_same].
+    + left. exact Hr.
+    + unfold apply. cbn [fold_left]. rewrite (rd_touch f1 Ha1), Hr.
+      destruct (rd cfg fn f0); [left; reflexivity|right; right; split; reflexivity].
     + replace (firstn j []) with (@nil eff) by (now destruct j).
-      right. left. unfold apply. cbn [fold_left apply1]. rewrite Hf.
-      destruct (f0 fn) eqn:Eo.
-      * rewrite Ht. apply upd_same.
-      * rewrite upd_other by exact Htf. rewrite Ht. apply upd_same.
+      right. left. unfold apply. cbn [fold_left]. apply rd_rename. now apply touch_temp.
 Qed.
 
 (* --- complete run --- *)
 Lemma save_final f0 ws :
-  overwrite_allowed cfg (f0 fn) (concat ws) = true ->
-  apply (effects cfg fn tok now chunk f0 (save_ops ws)) f0 fn = Some (concat ws).
+  alive f0 ->
+  overwrite_allowed cfg (rd cfg fn f0) (concat ws) = true ->
+  rd cfg fn (apply (effects cfg fn tok now chunk f0 (save_ops ws)) f0) = Some (concat ws).
 Proof.
-  intro Ho. rewrite effects_save, save_effects_split, Ho. rewrite apply_app, apply_cons.
-  pose proof (head_temp f0 (f0 fn) ws) as Ht.
-  set (f1 := apply (head_effects (f0 fn) ws) f0) in *.
-  assert (Ht2 : apply1 f1 (Touch fn) temp = Some (concat ws)).
-  { rewrite apply1_safe; [exact Ht|]. simpl. congruence. }
-  unfold move_effs. fold temp. destruct (xdev_eff cfg).
-  - rewrite apply_app. rewrite apply_safe.
-    + apply copy_full.
-    + constructor; [exact Htf|constructor].
-  - unfold apply. cbn [fold_left apply1]. fold (apply1 f1 (Touch fn)). rewrite Ht2. apply upd_same.
+  intros Ha Ho. rewrite effects_save, save_effects_split, Ho. rewrite apply_app, apply_cons.
+  pose proof (head_temp f0 (rd cfg fn f0) ws) as Ht.
+  pose proof (head_alive f0 (rd cfg fn f0) ws Ha) as Ha1.
+  set (f1 := apply (head_effects (rd cfg fn f0) ws) f0) in *.
+  pose proof (touch_temp f1 _ Ht) as Ht2. pose proof (alive_touch f1 Ha1) as Ha2.
+  unfold move_effs. fold temp tp. destruct (xdev_eff cfg).
+  - rewrite rd_of_tp.
+    + rewrite apply_app. rewrite apply_safe.
+      * apply copy_full.
+      * constructor; [exact Htt|constructor].
+    + apply alive_after; [exact Ha2|]. intro Hl. apply Forall_app. split.
+      * apply copy_safe. now apply tp_neq_fn.
+      * constructor; [exact Htf|constructor].
+  - unfold apply. cbn [fold_left]. apply rd_rename. exact Ht2.
 Qed.
 
 Lemma save_final_temp_removed f0 ws :
-  overwrite_allowed cfg (f0 fn) (concat ws) = true ->
+  overwrite_allowed cfg (rd cfg fn f0) (concat ws) = true ->
   apply (effects cfg fn tok now chunk f0 (save_ops ws)) f0 temp = None.
 Proof.
   intro Ho. rewrite effects_save, save_effects_split, Ho. rewrite apply_app, apply_cons.
-  pose proof (head_temp f0 (f0 fn) ws) as Ht.
-  set (f1 := apply (head_effects (f0 fn) ws) f0) in *.
-  assert (Ht2 : apply1 f1 (Touch fn) temp = Some (concat ws)).
-  { rewrite apply1_safe; [exact Ht|]. simpl. congruence. }
-  unfold move_effs. fold temp. destruct (xdev_eff cfg).
+  pose proof (head_temp f0 (rd cfg fn f0) ws) as Ht.
+  set (f1 := apply (head_effects (rd cfg fn f0) ws) f0) in *.
+  pose proof (touch_temp f1 _ Ht) as Ht2.
+  unfold move_effs. fold temp tp. destruct (xdev_eff cfg).
   - rewrite apply_app. unfold apply at 1. cbn [fold_left apply1]. apply upd_same.
-  - unfold apply. cbn [fold_left apply1]. fold (apply1 f1 (Touch fn)). rewrite Ht2.
-    rewrite upd_other by exact Htf. apply upd_same.
+  - unfold apply. cbn [fold_left]. set (f2 := apply1 f1 (Touch tp)) in *.
+    cbn [apply1]. rewrite Ht2. rewrite upd_other by exact Htf. apply upd_same.
 Qed.
 
 (* --- the empty-overwrite rule --- *)
 Lemma empty_overwrite_refused f0 ws o k :
-  f0 fn = Some o -> concat ws = [] -> c_aeo cfg = false ->
-  apply (firstn k (effects cfg fn tok now chunk f0 (save_ops ws))) f0 fn = Some o.
+  rd cfg fn f0 = Some o -> concat ws = [] -> c_aeo cfg = false ->
+  rd cfg fn (apply (firstn k (effects cfg fn tok now chunk f0 (save_ops ws))) f0) = Some o.
 Proof.
   intros Ho He Ha. rewrite effects_save, save_effects_split.
   unfold overwrite_allowed. rewrite Ho, He, Ha. cbn [length Nat.eqb negb orb].
-  rewrite <- Ho. apply apply_safe. apply Forall_firstn. apply nosave_safe_target.
+  rewrite <- Ho. apply rd_safe; apply Forall_firstn; apply nosave_safe; [exact Htf|exact Htt].
 Qed.
 
 Lemma overwrite_allowed_iff old new :
@@ -348,15 +426,15 @@ Proof.
 Qed.
 
 (* --- rollback --- *)
-Lemma abort_safe_target ws : Forall (safe fn) (abort_effects ws).
+Lemma abort_safe p ws : temp <> p -> Forall (safe p) (abort_effects ws).
 Proof.
-  unfold abort_effects. constructor; [exact Htf|]. apply Forall_app. split; [now apply appends_safe|].
-  constructor; [exact Logic.I|]. constructor; [exact Htf|constructor].
+  intro H. unfold abort_effects. constructor; [exact H|]. apply Forall_app. split; [now apply appends_safe|].
+  constructor; [exact Logic.I|]. constructor; [exact H|constructor].
 Qed.
 
 Lemma rollback_keeps_old f0 ws k :
-  apply (firstn k (effects cfg fn tok now chunk f0 (abort_ops ws))) f0 fn = f0 fn.
-Proof. rewrite effects_abort. apply apply_safe, Forall_firstn, abort_safe_target. Qed.
+  rd cfg fn (apply (firstn k (effects cfg fn tok now chunk f0 (abort_ops ws))) f0) = rd cfg fn f0.
+Proof. rewrite effects_abort. apply rd_safe; apply Forall_firstn; apply abort_safe; [exact Htf|exact Htt]. Qed.
 
 Lemma rollback_removes_temp f0 ws :
   apply (effects cfg fn tok now chunk f0 (abort_ops ws)) f0 temp = None.
@@ -368,105 +446,119 @@ Proof.
 Qed.
 
 (* --- the backup rule --- *)
+Lemma tail_safe_backup new : Forall (safe backup) (Touch tp :: move_effs cfg fn tok chunk new).
+Proof.
+  pose proof Hbt as Hbt'.
+  constructor; [simpl; congruence|].
+  unfold move_effs. fold temp tp. destruct (xdev_eff cfg).
+  - apply Forall_app. split; [apply copy_safe; congruence|].
+    constructor; [exact Htb|constructor].
+  - constructor; [split; [exact Htb|congruence]|constructor].
+Qed.
+
 Lemma backup_made f0 ws o :
-  f0 fn = Some o ->
-  overwrite_allowed cfg (f0 fn) (concat ws) = true ->
-  backup_wanted cfg (f0 fn) (concat ws) = true ->
+  rd cfg fn f0 = Some o ->
+  overwrite_allowed cfg (rd cfg fn f0) (concat ws) = true ->
+  backup_wanted cfg (rd cfg fn f0) (concat ws) = true ->
   apply (effects cfg fn tok now chunk f0 (save_ops ws)) f0 backup = Some o.
 Proof.
   intros Ho Hov Hb. rewrite effects_save, save_effects_split, Hov.
-  rewrite apply_app. rewrite apply_safe.
-  - unfold head_effects. rewrite apply_app. unfold backup_effs. rewrite Hb, Ho.
-    fold backup. apply copy_full.
-  - constructor; [simpl; congruence|].
-    unfold move_effs. fold temp. destruct (xdev_eff cfg).
-    + apply Forall_app. split; [apply copy_safe; congruence|].
-      constructor; [exact Htb|constructor].
-    + constructor; [split; [exact Htb|congruence]|constructor].
+  rewrite apply_app. rewrite apply_safe by apply tail_safe_backup.
+  unfold head_effects. rewrite apply_app. unfold backup_effs. rewrite Hb, Ho.
+  fold backup. apply copy_full.
 Qed.
 
 Lemma backup_untouched f0 ws k :
-  backup_wanted cfg (f0 fn) (concat ws) = false ->
+  backup_wanted cfg (rd cfg fn f0) (concat ws) = false ->
   apply (firstn k (effects cfg fn tok now chunk f0 (save_ops ws))) f0 backup = f0 backup.
 Proof.
   intro Hb. rewrite effects_save. apply apply_safe, Forall_firstn.
   unfold save_effects. apply Forall_app. split.
-  - constructor; [exact Htb|]. apply Forall_app. split; [now apply appends_safe|].
-    constructor; [exact Logic.I|constructor].
-  - unfold close_tail. destruct (overwrite_allowed cfg (f0 fn) (concat ws)); [|constructor].
+  - apply nosave_safe. exact Htb.
+  - unfold close_tail. destruct (overwrite_allowed cfg (rd cfg fn f0) (concat ws)); [|constructor].
     apply Forall_app. split.
-    + unfold backup_effs. rewrite Hb. destruct (f0 fn); constructor.
-    + constructor; [simpl; congruence|].
-      unfold move_effs. fold temp. destruct (xdev_eff cfg).
-      * apply Forall_app. split; [apply copy_safe; congruence|].
-        constructor; [exact Htb|constructor].
-      * constructor; [split; [exact Htb|congruence]|constructor].
+    + unfold backup_effs. rewrite Hb. destruct (rd cfg fn f0); constructor.
+    + apply tail_safe_backup.
 Qed.
 
 (* --- tmpDir on another file system: old, or a prefix of new --- *)
 Lemma xdev_prefix f0 ws k :
-  let t := apply (firstn k (effects cfg fn tok now chunk f0 (save_ops ws))) f0 fn in
-  t = f0 fn \/ exists m, t = Some (firstn m (concat ws)).
+  alive f0 ->
+  let t := rd cfg fn (apply (firstn k (effects cfg fn tok now chunk f0 (save_ops ws))) f0) in
+  t = rd cfg fn f0 \/ exists m, t = Some (firstn m (concat ws)).
 Proof.
-  cbv zeta. rewrite effects_save, save_effects_split.
-  destruct (overwrite_allowed cfg (f0 fn) (concat ws)).
-  2:{ left. apply apply_safe. apply Forall_firstn. apply nosave_safe_target. }
-  pose proof (head_temp f0 (f0 fn) ws) as Ht. pose proof (head_target f0 (f0 fn) ws) as Hf.
-  destruct (prefix_split k (head_effects (f0 fn) ws)
-              (Touch fn :: move_effs cfg fn tok chunk (concat ws))) as [E|[j E]]; rewrite E.
-  { left. apply apply_safe. apply Forall_firstn. apply head_safe_target. }
-  rewrite apply_app. set (f1 := apply (head_effects (f0 fn) ws) f0) in *.
-  destruct j as [|j]; [left; exact Hf|]. cbn [firstn]. rewrite apply_cons.
-  set (f2 := apply1 f1 (Touch fn)).
-  assert (Hf2 : f2 fn = f0 fn \/ f2 fn = Some (firstn 0 (concat ws))).
-  { unfold f2. simpl. destruct (f1 fn) eqn:E1; [left; congruence|right; apply upd_same]. }
-  assert (Ht2 : f2 temp = Some (concat ws)).
-  { unfold f2. rewrite apply1_safe; [exact Ht|]. simpl. congruence. }
-  unfold move_effs. fold temp. destruct (xdev_eff cfg).
-  - destruct (prefix_split j (copy_effs chunk (concat ws) fn) [Remove temp]) as [E2|[i E2]]; rewrite E2.
-    + destruct j as [|j']; [destruct Hf2 as [H|H]; [left|right; exists 0%nat]; exact H|].
-      right. apply copy_prefix. discriminate.
+  intro Ha. cbv zeta. rewrite effects_save, save_effects_split.
+  destruct (overwrite_allowed cfg (rd cfg fn f0) (concat ws)).
+  2:{ left. apply rd_safe; apply Forall_firstn; apply nosave_safe; [exact Htf|exact Htt]. }
+  pose proof (head_temp f0 (rd cfg fn f0) ws) as Ht.
+  pose proof (head_rd f0 (rd cfg fn f0) ws) as Hr.
+  pose proof (head_alive f0 (rd cfg fn f0) ws Ha) as Ha1.
+  destruct (prefix_split k (head_effects (rd cfg fn f0) ws)
+              (Touch tp :: move_effs cfg fn tok chunk (concat ws))) as [E|[j E]]; rewrite E.
+  { left. apply rd_safe; apply Forall_firstn; apply head_safe; auto using Htt, Hbt. }
+  rewrite apply_app. set (f1 := apply (head_effects (rd cfg fn f0) ws) f0) in *.
+  destruct j as [|j]; [left; exact Hr|]. cbn [firstn]. rewrite apply_cons.
+  pose proof (alive_touch f1 Ha1) as Ha2. pose proof (touch_temp f1 _ Ht) as Ht2.
+  pose proof (rd_touch f1 Ha1) as Hr2. rewrite Hr in Hr2.
+  set (f2 := apply1 f1 (Touch tp)) in *.
+  assert (Hf2 : rd cfg fn f2 = rd cfg fn f0 \/ rd cfg fn f2 = Some (firstn 0 (concat ws))).
+  { rewrite Hr2. destruct (rd cfg fn f0); [left|right]; reflexivity. }
+  unfold move_effs. fold temp tp. destruct (xdev_eff cfg).
+  - assert (Hal : forall es, (exists i, es = firstn i (copy_effs chunk (concat ws) tp ++ [Remove temp])) ->
+                  alive (apply es f2)).
+    { intros es [i ->]. apply alive_after; [exact Ha2|]. intro Hl. apply Forall_firstn.
+      apply Forall_app. split; [apply copy_safe; now apply tp_neq_fn|].
+      constructor; [exact Htf|constructor]. }
+    rewrite rd_of_tp by (apply Hal; now exists j).
+    destruct (prefix_split j (copy_effs chunk (concat ws) tp) [Remove temp]) as [E2|[i E2]]; rewrite E2.
+    + destruct j as [|j'].
+      * cbn [firstn]. change (apply [] f2) with f2. rewrite <- (rd_of_tp f2 Ha2).
+        destruct Hf2 as [H|H]; [left|right; exists 0%nat]; exact H.
+      * right. apply copy_prefix. discriminate.
     + right. exists (length (concat ws)). rewrite firstn_all. rewrite apply_app.
-      rewrite apply_safe; [apply copy_full|]. apply Forall_firstn. constructor; [exact Htf|constructor].
+      rewrite apply_safe; [apply copy_full|]. apply Forall_firstn. constructor; [exact Htt|constructor].
   - destruct j as [|j]; cbn [firstn].
-    + destruct Hf2 as [H|H]; [left|right; exists 0%nat]; exact H.
+    + change (apply [] f2) with f2. destruct Hf2 as [H|H]; [left|right; exists 0%nat]; exact H.
     + replace (firstn j []) with (@nil eff) by (now destruct j).
       right. exists (length (concat ws)). rewrite firstn_all.
-      unfold apply. cbn [fold_left apply1]. rewrite Ht2. apply upd_same.
+      unfold apply. cbn [fold_left]. apply rd_rename. exact Ht2.
 Qed.
 
 (* --- death by an exception: prefix, then the unwinding --- *)
-Lemma unwind_safe_target inited pre f :
-  unwind_commits = false ->
-  Forall (safe fn) (unwind_effs cfg fn tok now chunk inited pre f).
+Lemma unwind_safe p inited pre f :
+  unwind_commits = false -> temp <> p ->
+  Forall (safe p) (unwind_effs cfg fn tok now chunk inited pre f).
 Proof.
-  intro Hu. unfold unwind_effs, unwind_op. rewrite Hu.
+  intros Hu Hp. unfold unwind_effs, unwind_op. rewrite Hu.
   destruct inited; [|constructor].
   cbn [step a_closed]. fold temp. destruct (existsb is_closeF pre); cbn [fst snd]; [constructor|].
   constructor; [exact Logic.I|]. destruct (f temp); [|constructor].
-  constructor; [exact Htf|constructor].
+  constructor; [exact Hp|constructor].
 Qed.
 
 Lemma unwind_target inited pre f0 :
   unwind_commits = false ->
-  apply (pre ++ unwind_effs cfg fn tok now chunk inited pre (apply pre f0)) f0 fn = apply pre f0 fn.
-Proof. intro Hu. rewrite apply_app. apply apply_safe. now apply unwind_safe_target. Qed.
+  rd cfg fn (apply (pre ++ unwind_effs cfg fn tok now chunk inited pre (apply pre f0)) f0)
+  = rd cfg fn (apply pre f0).
+Proof.
+  intro Hu. rewrite apply_app. apply rd_safe; apply unwind_safe; auto using Htt.
+Qed.
 
 Lemma atomic_under_unwinding f0 ws k inited :
-  unwind_commits = false ->
+  unwind_commits = false -> alive f0 ->
   xdev_eff cfg = false ->
-  atomic_outcome (f0 fn) (concat ws)
-    (apply (interrupted cfg fn tok now chunk f0 (save_ops ws) k inited) f0 fn).
+  atomic_outcome (rd cfg fn f0) (concat ws)
+    (rd cfg fn (apply (interrupted cfg fn tok now chunk f0 (save_ops ws) k inited) f0)).
 Proof.
-  intros Hu Hx. unfold interrupted. rewrite unwind_target by exact Hu. now apply atomic_same_fs.
+  intros Hu Ha Hx. unfold interrupted. rewrite unwind_target by exact Hu. now apply atomic_same_fs.
 Qed.
 
 Lemma unwinding_old_or_prefix f0 ws k inited :
-  unwind_commits = false ->
-  let t := apply (interrupted cfg fn tok now chunk f0 (save_ops ws) k inited) f0 fn in
-  t = f0 fn \/ exists m, t = Some (firstn m (concat ws)).
+  unwind_commits = false -> alive f0 ->
+  let t := rd cfg fn (apply (interrupted cfg fn tok now chunk f0 (save_ops ws) k inited) f0) in
+  t = rd cfg fn f0 \/ exists m, t = Some (firstn m (concat ws)).
 Proof.
-  intro Hu. cbv zeta. unfold interrupted. rewrite unwind_target by exact Hu. apply xdev_prefix.
+  intros Hu Ha. cbv zeta. unfold interrupted. rewrite unwind_target by exact Hu. now apply xdev_prefix.
 Qed.
 
 (* an exception while the temp file is still open (outside __init__): the temp file is removed *)
@@ -483,6 +575,22 @@ Proof.
   - unfold apply at 1. cbn [fold_left apply1]. exact E.
 Qed.
 End Session.
+
+(* the domain of a symlinked target: the path fn itself holds no regular file
+   (it is the link), and the link points somewhere else than the paths the save uses *)
+Definition link_ok (cfg : config) (fn tok now : str) (f0 : fs) : Prop :=
+  match c_link cfg with
+  | Some q => f0 fn = None /\ q <> fn /\ q <> temp_name cfg fn tok /\ q <> backup_name cfg fn now
+  | None => True
+  end.
+
+Lemma link_ok_paths cfg fn tok now f0 : link_ok cfg fn tok now f0 ->
+  forall q, c_link cfg = Some q ->
+  q <> fn /\ q <> temp_name cfg fn tok /\ q <> backup_name cfg fn now.
+Proof. unfold link_ok. intros H q E. rewrite E in H. tauto. Qed.
+
+Lemma link_ok_alive cfg fn tok now f0 : link_ok cfg fn tok now f0 -> alive cfg fn f0.
+Proof. unfold link_ok, alive. destruct (c_link cfg); tauto. Qed.
 
 (* the regenerated table says: unwinding never commits *)
 Lemma table_unwind_rolls_back : unwind_commits = false.
